@@ -11,6 +11,10 @@ leaves a choice (how many copies a client with several matching subscriptions
 gets, which refusal applies when a CONNECT has several defects, packet
 identifiers and DUP of forwarded messages) the output says so and the oracle
 (lib/vcheck/props_broker.py) checks membership.
+
+A client identifier has at most one live connection: a CONNECT that carries the
+identifier of a live connection ends that connection first (`takeOver`,
+[MQTT-3.1.4-2]).
 -/
 import Mqtt.Iface.Broker
 import Mqtt.Spec.Match
